@@ -14,13 +14,20 @@ from corr.c01 import component_sizes, components_ok
 
 def real(case):
     seq, pairs = case[:2]
-    b = g1.mk_bpseq(seq, pairs)
+    if len(case) > 2 and case[2] == "text":
+        # the object is read from BPSEQ text (as the tools do), with '?' placeholders among the residue symbols
+        from rnapolis.common import BpSeq
+        text = "\n".join("%d %s %d" % (i + 1, c, p) for i, (c, p) in enumerate(zip(seq, pairs))) + "\n"
+        mk = lambda s_, p_: BpSeq.from_string(text)  # noqa: E731
+    else:
+        mk = g1.mk_bpseq
+    b = mk(seq, pairs)
     out = {}
     out["all"] = call(lambda: [d.structure for d in b.all_dot_brackets])
     out["seqs_ok"] = all(d.sequence == seq for d in b.all_dot_brackets) if out["all"][0] == "ok" else None
     # the optimal and the FCFS notation are computed on ONE further object, which is then asked for the list: the list
     # of an object that has already been asked for other notations must be the list of a fresh one
-    b2 = g1.mk_bpseq(seq, pairs)
+    b2 = mk(seq, pairs)
     out["opt"] = call_timed(lambda: b2.dot_bracket.structure)
     out["fcfs"] = call(lambda: b2.fcfs.structure)
     if out["opt"][0] == "ok" and (len(pairs) + sum(pairs)) % 3 == 0 or len(case) > 2:
@@ -186,7 +193,14 @@ def run(ctx):
     inputs = [(t, c) for t, c in inputs if components_ok(c[1], limit)]
     for _ in range(ctx.pick(16, 160)):
         inputs.append(("tree-groups", tree_groups(rng, rng.choice([6, 7, 8, 8]))))
-    outs = parallel_map(real, [c if t != "tree-groups" else c + ("after",) for t, c in inputs])
+    # read from BPSEQ text with '?' placeholders (what gap detection writes) among the unpaired residues
+    knotted_inputs = [c for t, c in inputs if any(x > 1 for x in (component_sizes(c[1]) or []))]
+    for seq, pairs in rng.sample(knotted_inputs, min(len(knotted_inputs), ctx.pick(60, 600))):
+        free = [i for i, p in enumerate(pairs) if p == 0]
+        if free:
+            hit = set(rng.sample(free, max(1, len(free) // 3)))
+            inputs.append(("placeholders-via-text", ("".join("?" if i in hit else ch for i, ch in enumerate(seq)), pairs)))
+    outs = parallel_map(real, [c + ("after",) if t == "tree-groups" else c + ("text",) if t == "placeholders-via-text" else c for t, c in inputs])
     history_probe(ctx, res, real, [c for _, c in inputs], "all_dot_brackets")
     reqs, idx = [], []
     for ci, ((tag, (seq, pairs)), o) in enumerate(zip(inputs, outs)):
@@ -368,6 +382,6 @@ def replay(ctx, data):
         print(real_mapping(data["input"]))
         return
     inp = data["input"]
-    o = real((inp["seq"], inp["pairs"], "after"))
+    o = real((inp["seq"], inp["pairs"], "text" if inp.get("family") == "placeholders-via-text" else "after"))
     print("impl:", o)
     print("model:", ctx.driver.ask1("ss.alldb", inp["seq"], g1.pstr(inp["pairs"])))
